@@ -55,10 +55,10 @@ class Concretizer:
             self._decls = {d.name() for d in self.model.decls()}
         return self._decls
 
-    def entry(self, typ, name, depth=0):
+    def entry(self, typ, name, depth=0, _noov=False):
         """value on entry of the symbolic input `name` of declared type `typ` under the model"""
         ov = self.ex.overrides.get(name)
-        if ov is not None:
+        if ov is not None and not _noov:
             typ = ov
         k = typ[0]
         if k in ('key', 'map', 'set', 'kseq'):   # containers
@@ -91,7 +91,7 @@ class Concretizer:
             else:
                 i = _ev(self.model, z3.Int(tagname))
                 i = min(max(i, 0), len(alts) - 1)
-            return self.entry(alts[i], name, depth)
+            return self.entry(alts[i], name, depth, _noov=True)
         if k == 'tuple':
             return {'$tuple': [self.entry(t, f'{name}.{i}', depth) for i, t in enumerate(typ[1])]}
         if k == 'obj':
